@@ -11,7 +11,7 @@ RULE = ("Generated programs (the C02 generator: all instruction forms, data dire
         "optionally padded by an RMB/FCB block to sizes 300 / 3000 / 9000 or to an exact image length on a tape-block, "
         "sector or granule edge (254..257, 509..511, 2290..2309, 4596..4611, 6902..6912), or to 20-64 KB by a table of "
         "distinct words (enumerated at 22-28 granules); enumerated programs that begin with data and restate the current "
-        "location with a second ORG before the first instruction (the load address stays the first ORG), and programs whose last byte is at $FFFF with NAM and END after it, and programs whose NAM (and ORG) sit in an included header file; with or "
+        "location with a second ORG before the first instruction (the load address stays the first ORG), and programs whose last byte is at $FFFF with NAM and END after it, and programs whose NAM (and ORG) sit in an included header file, and page-zero origins in short spellings ($80, %10000000, 32, an EQU symbol); with or "
         "without NAM (1-12 letters/digits in either case), with or without --name, with END / END label / no END, "
         "are assembled by a real assembler.py process with each non-empty subset of {--to_bin, --to_cas, --to_dsk}. "
         "Oracle: reference image = in-process Program on the same lines; .bin == image byte for byte; the independent "
@@ -24,7 +24,7 @@ ASSUMPTIONS = [
     "the in-process assembly of the same lines is the reference image (its correctness is C01-C05's subject)",
     "vlib/casref.py and vlib/dskref.py read the outputs",
 ]
-HEALTH = {"nam": 0.12, "cli_name_only": 0.06, "no_name": 0.02, "multi_switch": 0.12, "edge_length": 0.06, "org_restated_after_data": 20, "ends_at_top_of_memory": 20, "nam_in_included_file": 10}
+HEALTH = {"nam": 0.12, "cli_name_only": 0.06, "no_name": 0.02, "multi_switch": 0.12, "edge_length": 0.06, "org_restated_after_data": 20, "ends_at_top_of_memory": 20, "nam_in_included_file": 10, "origin_in_short_spelling": 10}
 EXHAUSTIVE = {"quick": ["images of 50600..64000 bytes (22-28 granules) x {--to_dsk, all three switches}"], "thorough": ["as quick"]}
 
 # image lengths on the container formats' edges: tape block (255), disk sector (256) and granule (2304) with the
@@ -62,6 +62,13 @@ def enumerated(tier, seed):
             for cli_name in (None, "OTHER"):
                 for end in ("none", "label"):
                     yield dict(prog=body, nam="Gizmo", cli_name=cli_name, nam_pos=0, bulk=0, target_len=None, switches=sw, end=end, header=header)
+    # page-zero origins in their short spellings (two hex digits, eight binary digits, decimal, an EQU symbol)
+    for addr, text in ((0x80, "$80"), (0xFF, "$FF"), (0x00, "$00"), (0x80, "%10000000"), (0x20, "32"), (0x80, "ZP"), (0x7F, "$7F")):
+        stmts = ([{"lab": "ZP", "k": "equ", "val": {"lit": 0x80, "sp": "hex2"}}] if text == "ZP" else []) + [
+            {"lab": "", "k": "org", "addr": addr, "text": text}, {"lab": "L0", "k": "imm8", "mn": "LDA", "val": proggen.lit(1)},
+            {"lab": "", "k": "mem", "mn": "STA", "val": {"sym": "L0", "op": "", "c": 0}, "force": ">"}, {"lab": "", "k": "inh", "mn": "RTS"}]
+        for sw in (["cas"], ["dsk"], ["bin", "cas", "dsk"]):
+            yield dict(prog={"org": addr, "stmts": stmts}, nam="ZPAGE", cli_name=None, nam_pos=0, bulk=0, target_len=None, switches=sw, end="label", short_org=True)
     # a program that starts with data and restates the current location with an ORG before its first instruction: the
     # image still starts at the first ORG, and that is the load address
     L = proggen.lit
@@ -162,6 +169,8 @@ def execute(case):
         labels.append("multi_switch")
     if case.get("top"):
         labels.append("ends_at_top_of_memory")
+    if case.get("short_org"):
+        labels.append("origin_in_short_spelling")
     if case.get("org_here"):
         labels.append("org_restated_after_data")
     if len(image) in EDGE_LENGTHS:
